@@ -254,7 +254,7 @@ def concretise_constraints(formulas, lo=-40, hi=40):
   seen = {}
   for t in apps_of(formulas, "pow2"):
     n = t.arg(0)
-    if n.sexpr() in seen:
+    if n.sexpr() in seen or z3.is_int_value(z3.simplify(n)):
       continue
     seen[n.sexpr()] = n
     alts = []
